@@ -251,4 +251,4 @@ def obligations():  # noqa: F811
     from tx.p_c08 import content
     from tx.p_c14 import rule_kinds
     return (_c01_base() + literal_values() + temp_sequences() + condition_coercion() + int_helper() + helpers_in_expressions()
-            + share("literal-text/", content()) + share("kind/", rule_kinds()))
+            + share("literal-text/", content()) + share("kind/", rule_kinds()) + share("operands/", __import__("tx.p_c14", fromlist=["x"]).data_filter_leaves_operands_alone()))
